@@ -32,7 +32,9 @@ fn challenges(b: &Bundle) -> Vec<(String, Integer)> {
     fn walk(v: &Value, path: String, b: &Bundle, out: &mut Vec<(String, Integer)>) {
         if let Value::Object(o) = v {
             if let (Some(val), Some(com)) = (o.get("value"), o.get("commitment")) {
-                if let (Some(t), Some(cv)) = (val.get("t"), com.get("value")) {
+                // the commitment is either a bare value or a {value, randomness} object
+                let cvv = if is_int_leaf(com) { Some(com) } else { com.get("value") };
+                if let (Some(t), Some(cv)) = (val.get("t"), cvv) {
                     let (t, cv) = (leaf_to_int(t), leaf_to_int(cv));
                     for (bl, g, h) in &b.base_pairs {
                         out.push((format!("nispTwoSecrets{}:{}", bl, path_class(&path)), hash_dec(&[g, h, &cv, &t])));
